@@ -172,7 +172,23 @@ pub fn pending_specs(g: &ModuleGraph) -> Vec<String> {
 }
 
 pub fn build_intern(g: &ModuleGraph, extra: &[String]) -> Intern {
+  build_intern_multi(&[g], extra)
+}
+
+pub fn build_intern_multi(gs: &[&ModuleGraph], extra: &[String]) -> Intern {
   let mut set = BTreeSet::new();
+  for g in gs {
+    collect_graph_specs(g, &mut set);
+  }
+  for s in extra {
+    set.insert(s.clone());
+  }
+  let specs = set.into_iter().enumerate().map(|(i, s)| (s, i as u64 + 1)).collect();
+  Intern { specs, misc: HashMap::new(), misc_rev: vec![] }
+}
+
+fn collect_graph_specs(g: &ModuleGraph, set: &mut BTreeSet<String>) {
+  let extra: &[String] = &[];
   for p in pending_specs(g) {
     set.insert(p);
   }
@@ -188,20 +204,20 @@ pub fn build_intern(g: &ModuleGraph, extra: &[String]) -> Intern {
   }
   for (k, imp) in &g.imports {
     set.insert(k.to_string());
-    collect_deps(&imp.dependencies, &mut set);
+    collect_deps(&imp.dependencies, set);
   }
   for (s, e) in entries(g) {
     set.insert(s.to_string());
     match e {
       Ok(m) => {
         set.insert(m.specifier().to_string());
-        collect_deps(m.dependencies(), &mut set);
+        collect_deps(m.dependencies(), set);
         if let Some(js) = m.js() {
           if let Some(td) = &js.maybe_types_dependency {
-            collect_res(&td.dependency, &mut set);
+            collect_res(&td.dependency, set);
           }
           if let Some(fc) = js.fast_check_module() {
-            collect_deps(&fc.dependencies, &mut set);
+            collect_deps(&fc.dependencies, set);
           }
         }
       }
@@ -210,8 +226,6 @@ pub fn build_intern(g: &ModuleGraph, extra: &[String]) -> Intern {
       }
     }
   }
-  let specs = set.into_iter().enumerate().map(|(i, s)| (s, i as u64 + 1)).collect();
-  Intern { specs, misc: HashMap::new(), misc_rev: vec![] }
 }
 
 pub fn abs_res(r: &Resolution, it: &mut Intern) -> Sx {
@@ -381,5 +395,19 @@ fn abs_res_err(types: u64, re: &ResolutionError, it: &mut Intern) -> Sx {
       Sx::atoms([4, types, it.spec(specifier.as_str()), r])
     }
     _ => Sx::atoms([2, types, it.misc(&resolution_error_str(re))]),
+  }
+}
+
+/// The graph without its attribute tables, in the shape of Coq's enc_graph_proj.
+pub fn abs_graph_proj(g: &ModuleGraph, it: &mut Intern) -> Sx {
+  match abs_graph(g, it) {
+    Sx::L(v) => {
+      let roots = match &v[1] {
+        Sx::L(r) => Sx::set(r.clone()),
+        x => x.clone(),
+      };
+      Sx::L(vec![v[0].clone(), roots, v[2].clone(), v[3].clone(), v[4].clone(), v[6].clone()])
+    }
+    x => x,
   }
 }
